@@ -37,7 +37,7 @@ ASSUMPTIONS = [
     "files are compared as raw bytes when the workspace path is identical, and as decoded feather rows / text with the workspace path masked otherwise",
     "a front-end crash or error exit is an outcome and is compared like any other",
 ]
-PROBES = ["nonempty_tables", "hashseed_varied", "dirent_varied", "heap_varied", "clock_varied", "env_varied", "env_ascii_locale", "install_via_symlink", "concurrent_process", "concurrent_context_switches", "ws_sibling", "ws_otherfs", "ws_relative", "ws_symlink",
+PROBES = ["nonempty_tables", "hashseed_varied", "dirent_varied", "heap_varied", "clock_varied", "env_varied", "env_ascii_locale", "install_via_symlink", "concurrent_process", "concurrent_context_switches", "stdout_reader_gone", "c_header_preprocessing", "ws_sibling", "ws_otherfs", "ws_relative", "ws_symlink",
           "cwd_varied", "pyopt_varied", "ws_symlink_inner", "ws_named_externs", "ws_named_src", "ws_named_default", "ws_named_glob", "ws_named_braces", "ws_symlink_sub", "history_other_settings",
           "history_same_project", "history_other_project", "history_crashed_run", "multi_file_project", "corpus_project",
           "generated_project", "sub_run", "sub_semantic", "taint_phase_ran", "baseline_completed", "baseline_ended_early", "not_quiet", "taint_report_written"]
@@ -60,7 +60,8 @@ CORPORA = [("dataflows/python", ".py", "python"), ("dataflows/javascript", ".js"
            ("real_cases", ".py", "python"), ("real_cases", ".py", "python"), ("real_cases", ".java", "java"),
            ("lang_parser/ruby", ".rb", "ruby"), ("lang_parser/llvm", ".ll", "llvm"), ("lang_parser/typescript", ".ts", "typescript"),
            ("lang_parser/c_sharp", ".cs", "csharp"), ("lang_parser/smali", ".smali", "smali"), ("motivativing_examples", ".py", "python"),
-           ("apply_summary_tests", ".py", "python"), ("import/php", ".php", "php"), ("import/java", ".java", "java")]
+           ("apply_summary_tests", ".py", "python"), ("import/php", ".php", "php"), ("import/java", ".java", "java"),
+           ("preprocessor", ".c", "c"), ("preprocessor", ".c", "c"), ("dataflows/c", ".c", "c")]
 if os.environ.get("VERIF_C14_ONLY"):
     # exploration aid (never set by the registered commands): restrict the corpus population to matching directories
     CORPORA = [c for c in CORPORA if os.environ["VERIF_C14_ONLY"] in c[0]] or CORPORA
@@ -128,7 +129,9 @@ WS_KINDS = ["sibling", "otherfs", "relative", "symlink", "symlink_inner", "named
 ENV_SETS = [{"TZ": "Asia/Tokyo"}, {"TZ": "America/St_Johns", "COLUMNS": "40", "LINES": "10", "TERM": "dumb", "NO_COLOR": "1"},
             {"LC_ALL": "C", "LANG": "C"}, {"LC_ALL": "", "LANG": "", "LC_CTYPE": "C.UTF-8"}, {"PYTHONIOENCODING": "latin-1:replace"},
             {"_umask": "077"}, {"_umask": "000", "TERM": "xterm-256color", "FORCE_COLOR": "1"}, {"_close_stdin": "1"},
-            {"PYTHONUNBUFFERED": "1", "PYTHONFAULTHANDLER": "1"}, {"USER": "someone", "LOGNAME": "someone", "SHELL": "/bin/false"}]
+            {"PYTHONUNBUFFERED": "1", "PYTHONFAULTHANDLER": "1"}, {"USER": "someone", "LOGNAME": "someone", "SHELL": "/bin/false"},
+            # the build-tool variables of whoever starts lian, and a standard output whose reader has gone away (lian ... | head -1)
+            {"CC": "gcc", "CXX": "g++", "CFLAGS": "-O2 -DNDEBUG", "CPPFLAGS": "-DFROM_ENV=1"}, {"_stdout": "closed_pipe"}, {"_stdout": "closed_pipe"}]
 HIST_CYCLE = [{"proj": "B"}, {"proj": "A"}, {"proj": "B"}, {"proj": "B", "crash_at": 15}, {"proj": "B", "settings": "alt"}]
 DIM_CYCLE = ["ws", "hashseed", "history", "ws", "dirent", "pyopt", "ws", "heap", "cwd", "clock", "env", "install", "concurrent"]
 
@@ -212,6 +215,8 @@ def generate(rng, k):
         ops.append({"op": "otherfile", "path": p, "content": other[p]})
     ri = k.get("run_index", 0)
     lang_op = {"op": "lang", "lang": lang}
+    if lang == "c" and rng.random() < 0.7:
+        lang_op["c_preprocess"] = True      # -I: headers are preprocessed by the C compiler found on the machine
     if DIM_CYCLE[ri % len(DIM_CYCLE)] == "history":
         lang_op["quiet"] = False          # runs that vary the machine's history: with the report files of a non-quiet run
         lang_op["sub"] = "run"            # ... of the whole pipeline, taint phase included
@@ -221,6 +226,7 @@ def generate(rng, k):
     ops.append(lang_op)
     baseline = {"op": "variant", "hashseed": 0, "dirent": "natural", "heap_pad": 0, "ws": "same", "history": [], "clock": "natural", "env": {}, "install": "plain", "concurrent": None}
     ops.append(baseline)
+    c_env_pending = bool(lang_op.get("c_preprocess"))
     all_ascii = all(op["content"].isascii() and op["path"].isascii() for op in ops if op["op"] in ("file", "otherfile"))
     for j in range(k["n_variants"] - 1):
         if j == 0:
@@ -234,6 +240,10 @@ def generate(rng, k):
             ops.append(v_)
         else:
             ops.append(_gen_variant(rng, baseline))
+        if c_env_pending and j == k["n_variants"] - 2:
+            # header preprocessing: one variant runs with the build-tool variables of another tool chain
+            ops[-1]["env"] = {"CC": "gcc", "CXX": "g++", "CFLAGS": "-O2 -DNDEBUG", "CPPFLAGS": "-DFROM_ENV=1"}
+            c_env_pending = False
         forced_ascii = j == 0 and DIM_CYCLE[ri % len(DIM_CYCLE)] == "env" and (ri // len(DIM_CYCLE)) % 2 == 0
         if all_ascii and "env" in ops[-1] and ops[-1]["env"] and (rng.random() < 0.5 or forced_ascii):
             # a locale whose default text encoding is ASCII - only for projects that are pure ASCII themselves, because lian
@@ -395,6 +405,9 @@ def execute(trace):
         other = [op for op in trace["ops"] if op["op"] == "otherfile"]
         lang = next((op["lang"] for op in trace["ops"] if op["op"] == "lang"), "python")
         quiet = next((op["quiet"] for op in trace["ops"] if op["op"] == "lang" and "quiet" in op), k.get("quiet", True))
+        c_preprocess = any(op.get("c_preprocess") for op in trace["ops"] if op["op"] == "lang")
+        if c_preprocess:
+            hit("c_header_preprocessing")
         sub_forced = next((op["sub"] for op in trace["ops"] if op["op"] == "lang" and "sub" in op), None)
         if sub_forced and k["sub"] != sub_forced:
             k = dict(k, sub=sub_forced)
@@ -492,7 +505,8 @@ def execute(trace):
 
             def spec_for(proj, crash_at=None):
                 argv = lianrun.build_argv({"sub": k["sub"], "lang": lang, "force": True, "workspace": w_arg, "quiet": quiet,
-                                           "inputs": [proj], "flags": k["flags"], "stock_settings": k.get("stock_settings")}, run_settings)
+                                           "inputs": [proj], "flags": k["flags"] + (["-I"] if c_preprocess else []),
+                                           "stock_settings": k.get("stock_settings")}, run_settings)
                 return {"argv": argv, "cwd": cwd, "dirent": v.get("dirent", "natural"), "heap_pad": v.get("heap_pad", 0), "clock": v.get("clock", "natural"), "env": v.get("env") or {}, "install": v.get("install") or "plain",
                         "settings": run_settings, "stock_settings": k.get("stock_settings", False), "ws": W, "mask": masks,
                         "crash_at": crash_at}
@@ -512,6 +526,13 @@ def execute(trace):
                     for n_ in ("entry.yaml", "source.yaml"):
                         shutil.copy2(os.path.join(_settings, n_), os.path.join(run_settings, n_))
                 hit({"A": "history_same_project", "B": "history_crashed_run" if h.get("crash_at") else "history_other_project"}[h["proj"]])
+            if (v.get("env") or {}).get("_stdout") == "closed_pipe" and base_rec is not None and base_rec.get("stdio_len", 0) > 3000:
+                # a process that prints more than its console buffer holds fails on a closed pipe whatever it is; only runs
+                # whose whole output fits into the buffer are comparable
+                hit("closed_pipe_variant_skipped_long_output")
+                continue
+            if (v.get("env") or {}).get("_stdout") == "closed_pipe":
+                hit("stdout_reader_gone")
             n_child += 1
             if v.get("concurrent"):
                 cc = v["concurrent"]
@@ -592,7 +613,7 @@ def execute(trace):
             outcome_diff = (rec["status"], rec["detail"]) != (base_rec["status"], base_rec["detail"])
             # the messages of a non-quiet run legitimately mention what was found in the workspace ("Directory created"), its
             # files are what the property is about; quiet runs print results only
-            stdio_diff = rec.get("stdio_sha") != base_rec.get("stdio_sha") and quiet and "PYTHONIOENCODING" not in (v.get("env") or {})
+            stdio_diff = rec.get("stdio_sha") != base_rec.get("stdio_sha") and quiet and "PYTHONIOENCODING" not in (v.get("env") or {}) and "_stdout" not in (v.get("env") or {})
             log.append(["variant", dims, rec["status"], rec["detail"], len(rec["files"]), len(diff_files), outcome_diff, stdio_diff])
             if diff_files or outcome_diff or stdio_diff:
                 violation = {"step": step, "cls": "diverge", "detail": {
